@@ -866,7 +866,10 @@ TickLCore(L) ==
   IF L.panic # "" THEN [L |-> L, ce |-> NoCe]
   ELSE IF L.aq # <<>>
   THEN LET e == Head(L.aq)
-           L1 == [L EXCEPT !.aq = Tail(@)]
+           \* src: layout.rs tick(): since b96326a the history ages advance on this early-return path too
+           \* (Bug = "aq_hist_frozen": the behaviour before the repair)
+           L1 == IF Bug = "aq_hist_frozen" THEN [L EXCEPT !.aq = Tail(@)]
+                 ELSE [L EXCEPT !.aq = Tail(@), !.hk = HistTick(@), !.hi = HistTick(@)]
        IN IF TransOrderPanics(L1) THEN [L |-> Panic(L1, "heapless:layer_stack"), ce |-> NoCe]
           ELSE LET st == TransOrder(L1) IN
                DoAction(L1, e.ac, <<>>, e.x, e.y, e.delay, FALSE, IF st = <<>> THEN <<>> ELSE Tail(st))
